@@ -235,15 +235,20 @@ Definition t2_hist_gen (d : data) (h' : list genrec) (keep : list nat) : res (op
   | None => Ok None
   end.
 Definition from_opt {A} (o : option A) (dflt : A) : A := match o with Some a => a | None => dflt end.
-Definition t2_ctx (mp : bool) (st : Z) : mctx := {| c_mp := mp; c_solver := st; c_sim := [] |}.
+(** the simulator string the MOP tests see, and the section list left, according to where the source clears the simulator *)
+Definition t2_sim (d : data) : str := if t2_clears_simulator_first then [] else simulator d.
+Definition t2_sections (secs : list str) : list str :=
+  if t2_clears_simulator_first then remove_first (s2l t2_lineq_section) (remove_first (s2l simul_section) secs)
+  else remove_first (s2l simul_section) (remove_first (s2l t2_lineq_section) secs).
+Definition t2_ctx (mp : bool) (st : Z) (sim : str) : mctx := {| c_mp := mp; c_solver := st; c_sim := sim |}.
 Lemma to_tough2_unfold mp d :
   convert_to_TOUGH2 mp d =
   (do st <- solver_type_t2 d;
-   let r := run_prog (t2_ctx mp st) mop_prog_t2 (options d, 0) in
+   let r := run_prog (t2_ctx mp st (t2_sim d)) mop_prog_t2 (options d, 0) in
    let gl := gens_loop (genlist d) (heap d) in
    do hg <- t2_hist_gen d (fst gl) (snd (snd gl));
    Ok {| simulator := []; filename := if mp then s2l mp_filename else filename d;
-         sections := remove_first (s2l t2_lineq_section) (remove_first (s2l simul_section) (sections d));
+         sections := t2_sections (sections d);
          other_present := other_present d; multi := multi_to_tough2 (multi d); lineq := []; solver := solver d;
          options := fst r; heap := fst gl; genlist := snd (snd gl); gendict := dict_of_gens (fst gl) (snd (snd gl));
          short_output := short_empty;
@@ -253,7 +258,8 @@ Lemma to_tough2_unfold mp d :
          rocks := map (rescale_by (snd r)) (rocks d); grid_blocks := grid_blocks d; grid_conns := grid_conns d |}).
 Proof.
   destruct d as [sim fn secs oth mu lq sv opts hp gl gd so hb hc hgn rk gb gc].
-  unfold convert_to_TOUGH2, params_to_tough2, t2_hist_gen, t2_ctx. destruct mp; fld; cbn [bind].
+  unfold convert_to_TOUGH2, clear_simulator, params_to_tough2, t2_hist_gen, t2_ctx, t2_sim, t2_sections.
+  destruct t2_clears_simulator_first; destruct mp; fld; cbn [bind].
   all: unfold solver_type_t2; fld.
   all: destruct (dtruthy lq); [destruct (dget (s2l t2_lineq_type_key) lq) as [[|z|s|]|]|]; cbn [bind]; try reflexivity.
   all: unfold gens_to_tough2, convert_short_to_history; fld.
